@@ -153,7 +153,11 @@ class Inotify:
         self._lock = threading.Lock()
         self._closed = False
         self._is_reading = False
-        self._kill_r, self._kill_w = os.pipe()
+        try:
+            self._kill_r, self._kill_w = os.pipe()
+        except OSError:
+            os.close(inotify_fd)
+            raise
 
         # _check_inotify_fd will return true if we can read _inotify_fd without blocking
         if hasattr(select, "poll"):
@@ -188,10 +192,15 @@ class Inotify:
         self._event_mask = event_mask
         self._follow_symlink = follow_symlink
         self._is_recursive = recursive
-        if os.path.isdir(path):
-            self._add_dir_watch(path, event_mask, recursive=recursive)
-        else:
-            self._add_watch(path, event_mask)
+        try:
+            if os.path.isdir(path):
+                self._add_dir_watch(path, event_mask, recursive=recursive)
+            else:
+                self._add_watch(path, event_mask)
+        except OSError:
+            # Do not leak the descriptors when the watch cannot be set up (missing path, limits, ...).
+            self._close_resources()
+            raise
         self._moved_from_events: dict[int, InotifyEvent] = {}
 
     @property
